@@ -1,6 +1,8 @@
 // CLI stage: the loop of the property through the real binary ($ATLAS_BIN):
-//   atlas schema apply --auto-approve -u sqlite://<file> --to file://schema.hcl [--dev-url ...]
-//   atlas schema diff --from sqlite://<file> --to file://schema.hcl --dev-url ...   => "Schemas are synced"
+//
+//	atlas schema apply --auto-approve -u sqlite://<file> --to file://schema.hcl [--dev-url ...]
+//	atlas schema diff --from sqlite://<file> --to file://schema.hcl --dev-url ...   => "Schemas are synced"
+//
 // The current database is created with the harness' own DDL through an independent client; the
 // desired schema is written with sqlite.MarshalHCL.
 package main
